@@ -392,10 +392,12 @@ class Runner:
             elif name == "stop":
                 if not self.started:
                     return True
+                self.fixed_before_stop = None
                 if self.pending:
                     # the partial line still pending in the redirected stream appears as a printed line (above the last frame)
                     self.twin.print(self.pending, markup=False, highlight=False, emoji=False)
                     rows = self.twin_new_rows()
+                    self.fixed_before_stop = list(self.fixed)
                     self.fixed = [fx + rows for fx in self.fixed]
                     self.pending = ""
                     self.ctx.cls("partial-line-at-stop")
@@ -423,6 +425,10 @@ class Runner:
                 # but the rows printed before must stay and the cursor must not have gone above them
                 self.started = False
                 self.drawn = None
+                if name == "stop" and getattr(self, "fixed_before_stop", None) is not None:
+                    # the frame could not be drawn, so the pending partial line could not be printed above it either: it may or may not be on the screen
+                    self.fixed = self.fixed_before_stop + self.fixed
+                    self.fixed_before_stop = None
                 self.ctx.cls("render-fault-in-stop")
                 ok = self.sync_prefix(op, top)
                 self.dead_screen = True
